@@ -40,6 +40,7 @@ DOM = {
 	"object": [1, "a", 2.5, (1, 2), b"x", V.Plain(3)],
 	"regroup": [(1, (2, 3)), ((1, 2), 3), (1, 2, 3), ((1,), 2, 3), (1, 2, (3,)), ((1, 2, 3),)],      # the same leaves in the same order, grouped differently
 	"sets": [{1, 2}, {2, 1}, {3}, frozenset({1, 5}), {"a", 1}, {(1, 2), (2, 1)}],      # freshness only (sets are unhashable: no sensitivity demand)
+	"dicts": [{"a": 1, "b": 2}, {"b": 2, "a": 1}, {"a": 1, "b": 3}, {}, {"a": [1, 2]}, {1: "x", "y": None}],      # freshness against an equal dict built in another order
 	"setsum": [{1, 2}, {0, 3}, {1, 4}, {2, 3}, {0, 5}],      # sets of one size whose member hashes have one sum
 	"nested": [[1, 2], [1], (3, [4]), {"k": 1}, [1, 2], (3.0, float("nan")), [float("nan")], (1, (2.5, float("nan")))],
 }
